@@ -198,6 +198,60 @@ fn has_word(text: &str, w: &str) -> bool {
     text.split(|c: char| !c.is_ascii_alphanumeric()).any(|t| t.eq_ignore_ascii_case(w))
 }
 
+
+/// oracle only (no model): does this one-query case still lose a matching frame in `phase`?
+fn still_fails(c: &Case, phase: &str) -> bool {
+    let Ok(Ok(b)) = guarded({ let c = c.clone(); move || build(&c) }) else { return false };
+    let Built { _dir, path, mem } = b;
+    let mut mem = if phase == "live" { mem } else {
+        drop(mem);
+        match Memvid::open(&path) { Ok(m) => m, Err(_) => return false }
+    };
+    let q = &c.queries[0];
+    let text = if q.upper { c.qword.to_ascii_uppercase() } else { c.qword.clone() };
+    let frames = vh::verif_frames(&mem);
+    let matching: Vec<u64> = frames.iter().filter(|f| f.status == FrameStatus::Active)
+        .filter(|f| f.search_text.as_deref().is_some_and(|t| has_word(t, &c.qword))).map(|f| f.id).collect();
+    let obs = do_search(&mut mem, &text, q.top_k, q.snippet, q.no_sketch);
+    let hit = obs.frames();
+    obs.err.is_none() && matching.len() <= q.top_k && matching.iter().any(|f| !hit.contains(f))
+}
+
+/// delta-debugging of a failing case: fewer documents, then shorter documents (bounded number of rebuilds)
+fn shrink_case(c: &Case, q: &Query, phase: &str) -> Case {
+    let mut cur = c.clone();
+    cur.queries = vec![q.clone()];
+    if !cur.deletes.is_empty() {
+        let mut t = cur.clone();
+        t.deletes.clear();
+        if still_fails(&t, phase) { cur = t; } else { return cur; }
+    }
+    let budget = std::cell::Cell::new(70usize);
+    let base = cur.clone();
+    let docs = shrink_list(&cur.docs, &mut |d: &[DocSpec]| {
+        if budget.get() == 0 { return false; }
+        budget.set(budget.get() - 1);
+        let mut t = base.clone();
+        t.docs = d.to_vec();
+        still_fails(&t, phase)
+    });
+    cur.docs = docs;
+    if cur.docs.len() <= 6 {
+        for i in 0..cur.docs.len() {
+            let base = cur.clone();
+            let words = shrink_list(&cur.docs[i].words, &mut |w: &[u32]| {
+                if budget.get() == 0 { return false; }
+                budget.set(budget.get() - 1);
+                let mut t = base.clone();
+                t.docs[i].words = w.to_vec();
+                still_fails(&t, phase)
+            });
+            cur.docs[i].words = words;
+        }
+    }
+    cur
+}
+
 struct Ctx<'a> {
     drv: Option<&'a mut Driver>,
     sum: &'a mut Summary,
@@ -227,6 +281,9 @@ fn run_phase(mem: &mut Memvid, c: &Case, phase: &str, cx: &mut Ctx) -> bool {
         // (1) the real code
         let obs = do_search(mem, &text, q.top_k, q.snippet, q.no_sketch);
         let truth = do_search(mem, &text, big, q.snippet, true);
+        // same pre-filter setting, page large enough for everything: the order in which this request's
+        // evaluated list is assembled (the recency re-sort depends on the set of documents that got through)
+        let reference = if q.no_sketch { truth.clone() } else { do_search(mem, &text, big, q.snippet, false) };
         let cands_real: Option<Vec<u64>> = if mem.has_sketches() && !q.no_sketch {
             let opts = SketchSearchOptions { hamming_threshold: 32, max_candidates: (q.top_k * 10).max(500), min_score: 0.0 };
             Some(mem.find_sketch_candidates(&text, Some(opts)).iter().map(|c| c.frame_id).collect())
@@ -235,7 +292,9 @@ fn run_phase(mem: &mut Memvid, c: &Case, phase: &str, cx: &mut Ctx) -> bool {
         let toks = vh::analysed_tokens(mem, &[text.to_ascii_lowercase()]).unwrap_or_default();
         let window = q.snippet.max(80);
         let mut ev: Vec<(u64, usize, usize, Vec<(usize, usize)>)> = vec![];
-        for fid in truth.order() {
+        let mut rank_order = reference.order();
+        for fid in truth.order() { if !rank_order.contains(&fid) { rank_order.push(fid); } }
+        for fid in rank_order {
             let Some(f) = frames.get(fid as usize) else { continue };
             let Some((chunk_text, chunk_start)) = truth.chunk.get(&fid).cloned() else { continue };
             let eval_text = f.search_text.as_deref().map(str::to_ascii_lowercase).unwrap_or_else(|| chunk_text.to_ascii_lowercase());
@@ -245,7 +304,6 @@ fn run_phase(mem: &mut Memvid, c: &Case, phase: &str, cx: &mut Ctx) -> bool {
             ev.push((fid, chunk_start, chunk_text.len(), slices));
         }
         let total_slices: usize = ev.iter().map(|d| d.3.len()).sum();
-        let same_ts = c.docs.iter().all(|d| d.ts == c.docs[0].ts);
 
         // (2) the model
         let entries = if track.is_empty() { "-".to_string() } else {
@@ -313,7 +371,7 @@ fn run_phase(mem: &mut Memvid, c: &Case, phase: &str, cx: &mut Ctx) -> bool {
                         else if trunc && (!a.is_subset(&b) || a.len() != (q.top_k * 10).max(500)) { diffs.push(format!("truncated sketch candidates: impl {} not a max_candidates-subset of model {}", ids(&a), m_cands)); }
                     }
                 }
-                let det = field(m, "det") == "1" && (same_ts || total_slices <= q.top_k.max(1));
+                let det = field(m, "det") == "1";
                 let m_hits: BTreeSet<u64> = parse_ids(field(m, "hits")).into_iter().collect();
                 if obs.err.is_some() { diffs.push(format!("search failed: {:?}", obs.err)); }
                 else if det && !trunc {
@@ -350,7 +408,11 @@ fn run_phase(mem: &mut Memvid, c: &Case, phase: &str, cx: &mut Ctx) -> bool {
                 s.known_finding(sig, &what, input(q));
             } else {
                 let sg = if explained { sig.to_string() } else { "matching-frame-not-returned".to_string() };
-                s.oracle_violation(&sg, &what, input(q));
+                let small = if s.oracle_violations.len() < 3 { shrink_case(c, q, phase) } else { let mut one = c.clone(); one.queries = vec![q.clone()]; one };
+                let mut j = case_json(&small);
+                j["phase"] = json!(phase);
+                j["original_docs"] = json!(c.docs.len());
+                s.oracle_violation(&sg, &what, j);
             }
         } else if matching.len() <= q.top_k { s.branch("recall-complete"); }
 
@@ -470,6 +532,24 @@ fn main() {
         sum.finish(&args);
     }
     let mut rng = Rng::new(args.seed);
+    if let Some(n) = args.extra.get("hunt").and_then(|s| s.parse::<usize>().ok()) {
+        // development aid: tiny corpora only (2-3 documents of 6-14 words), stops at the first violation
+        let mut cx = Ctx { drv: drv.as_mut(), sum: &mut sum, known: vec![], verbose: false };
+        for _ in 0..n {
+            let nd = rng.usize(2, 3);
+            let base = rng.below(170_000) as u32;
+            let docs: Vec<DocSpec> = (0..nd).map(|i| {
+                let len = rng.usize(6, 14);
+                let mut words: Vec<u32> = (0..len).map(|_| vocab_word(base, rng.below(60) as u32)).collect();
+                if i == 0 { let p = rng.usize(0, len - 1); words[p] = PLANT; }
+                DocSpec { words, binary: false, ts: TS }
+            }).collect();
+            let c = Case { qword: "zorvex".into(), docs, deletes: vec![], queries: vec![Query { top_k: 10, no_sketch: false, snippet: 200, upper: false }] };
+            run_case(&c, &mut cx);
+            if !cx.sum.oracle_violations.is_empty() || !cx.sum.disagreements.is_empty() { break; }
+        }
+        sum.finish(&args);
+    }
     let n = if args.thorough { 120 } else { 12 };
     {
         let mut cx = Ctx { drv: drv.as_mut(), sum: &mut sum, known, verbose: std::env::var("C09_VERBOSE").is_ok() };
